@@ -239,6 +239,12 @@ func (d *PushDispatcher) runRoute(
 		for i, env := range resp.Items {
 			select {
 			case <-d.stopCh:
+				// Settle what was already delivered in this micro-batch before
+				// leaving; otherwise its pending ack/nack/dead would be lost
+				// and the message would stay leased until its lease expires.
+				if useBatchMutations && len(actions) > 0 {
+					d.applyLeaseActions(logger, actions)
+				}
 				d.requeueLeases(logger, resp.Items[i:], 0, "dispatcher_stop_requeue_failed")
 				return
 			default:
